@@ -132,6 +132,10 @@ def gen_cases(ctx, rnd):
         ["DCompound", [["DRangeI", 0, 5, 0], ["DFloat"]]], ["DCompound", [["DType", 100, True], ["DInstance", 100, False, False]]],
         ["DCompound", [["DSelf", False], ["DBool"], ["DPrefixList", [pv.W("yes"), pv.W("no")]]]],
         ["DCompound", [["DCast", "CTFloat"], ["DInt"]]], ["DCompound", [["DCast", "CTBool"], ["DStr"]]],
+        ["DCompound", [["DCompound", [["DInt"], ["DStr"]]], ["DFloat"]]],
+        ["DCompound", [["DCompound", [["DString", 2, 4, None], ["DInt"]]], ["DCast", "CTInt"]]],
+        ["DCompound", [["DFloat"], ["DCompound", [["DString", 0, 5, None], ["DBool"]]], ["DCast", "CTStr"]]],
+        ["DCompound", [["DCompound", [["DRangeI", 0, 5, 0], ["DType", 100, False]]], ["DCallable", False]]],
         ["DTuple", [["DInt"], ["DInt"]]], ["DTuple", [["DInt"], ["DStr"]]], ["DTuple", [["DFloat"], ["DRangeF", pv.F(0.0), pv.F(1.0), 0]]],
         ["DTuple", [["DTuple", [["DInt"], ["DInt"]]]]], ["DTuple", [["DCast", "CTInt"], ["DBool"]]],
         ["DTuple", [["DCompound", [["DInt"], ["DStr"]]], ["DAny"]]], ["DTuple", [["DFloat"]]],
@@ -143,7 +147,7 @@ def gen_cases(ctx, rnd):
         for v in vals:
             cases.append(dict(d=d, v=v))
     # random nestings (depth <= 3)
-    n_cfg, n_val = (45, 22) if quick else (900, 50)
+    n_cfg, n_val = (45, 22) if quick else (750, 50)
     for _ in range(n_cfg):
         d = pv.gen_desc(rnd, 3)
         if d[0] not in ("DTuple", "DCompound"):
@@ -190,6 +194,6 @@ def run(ctx):
     else:
         header = pv.header_with_sub(IMPORTS, envd["sub"])
         single.run(ctx, "c03_driver.py", cases, to_term, header, CASE_T, key_fn, describe, nontrivial, RELATION,
-                   check_obs=check_obs, shard=550)
+                   check_obs=check_obs, sanitize=(ctx.tier == "thorough"), shard=550)
     t2.gate(ctx, "C03")
     proof_gate(ctx, ok, log, PROPS)
